@@ -50,6 +50,8 @@
 //	c01-return             nil error with n != len(input)
 //	c01-wire               wire ++ pending != concatenation of the ranges the calls reported as accepted
 //	c01-hang               an injected batch did not come back / flush spins on zero-length writes
+//	c01-stranded           accepted bytes queued on an open conn that no kernel report will ever flush (fires
+//	                       together with c04-quiescent-unarmed / c04-et-lost-edge: the C01 reading of the same state)
 //	c04-quiescent-unarmed  open, registered, non-empty queue, EPOLLOUT not armed
 //	c04-progress           EPOLLOUT delivered with kernel room did not reduce the backlog
 //	c04-et-lost-edge       ET: flush gave up on a backlog without the kernel having refused a write
@@ -579,11 +581,53 @@ func genFlush(g *lp.Gen, s *sim) string {
 	return strings.Join(ks, ",")
 }
 
+// genManyItems: a queue of 130-400 items (file ranges queued behind a refused write, now and then a buffer
+// of more than 64 KiB, which does not coalesce into the tail buffer), then EPOLLOUT with room for everything:
+// one flush must take the whole queue or leave the conn in a state from which the rest still drains (a
+// per-event budget in flush strands the rest under EPOLLET: no request was refused, so no edge is owed).
+func genManyItems(g *lp.Gen, typ, mode string) {
+	fsize := 300
+	g.P("C typ=%s mode=%s maxwb=0 fsize=%d openwrite=-", typ, mode, fsize)
+	g.P("O write @%d:%d K=eagain", 1+g.Intn(100), g.Intn(256))
+	n := 130 + g.Intn(271)
+	for i := 0; i < n; i++ {
+		if g.Chance(1, 25) {
+			g.P("O write @%d:%d K=-", 65537+g.Intn(100), g.Intn(256))
+		} else {
+			g.P("O sendfile %d %d K=-", g.Intn(fsize), 1+g.Intn(3))
+		}
+	}
+	room := func(k int) string {
+		ks := make([]string, k)
+		for i := range ks {
+			ks[i] = "w1000000"
+		}
+		return strings.Join(ks, ",")
+	}
+	switch g.Intn(3) {
+	case 0: // room for the whole queue in one event
+		g.P("O event o K=%s", room(n+5))
+	case 1: // the kernel refuses in the middle: the edge is owed, the next event takes the rest
+		g.P("O event o K=%s,eagain", room(1+g.Intn(n)))
+		g.P("O event o K=%s", room(n+5))
+	default: // read and write readiness together
+		g.P("O event oi K=%s", room(n+5))
+	}
+	g.P("Q")
+	g.P("O event o K=%s", room(n+5))
+	g.P("O write @%d:%d K=w1", 2+g.Intn(100), g.Intn(256))
+	g.P("O event o K=w1000000")
+}
+
 func gen(g *lp.Gen) {
 	modes := []string{"lt", "et", "oneshot"}
 	for cs := 0; cs < g.N; cs++ {
 		typ := []string{"tcp", "unix"}[cs%2]
 		mode := modes[(cs/2)%3]
+		if g.Chance(1, 300) {
+			genManyItems(g, typ, mode)
+			continue
+		}
 		s := &sim{}
 		if g.Chance(11, 20) {
 			s.maxwb = g.PickInt(1, 100, 1000, 65536, 65537, 100000, 131072, 262144, 500000) + g.PickInt(-1, 0, 0, 1)
@@ -1050,12 +1094,15 @@ func (cs *caseState) state() string {
 			}
 			orc("c04-quiescent-unarmed", "mode=%s backlog-origin=%s queue=%d items (%d bytes) registered=%v epollout=%v oneshot-disarmed=%v wadded=%v",
 				cs.mode, origin, len(st.Items), backlog, reg, events&syscall.EPOLLOUT != 0, disarmed, st.IsWAdded)
+			orc("c01-stranded", "mode=%s: %d bytes that the calls reported as accepted sit in the queue of an open conn and no EPOLLOUT is armed: without another call or input from the peer they never reach it (queue=%d items wadded=%v epollout=%v oneshot-disarmed=%v)",
+				cs.mode, backlog, len(st.Items), st.IsWAdded, events&syscall.EPOLLOUT != 0, disarmed)
 		}
 	}
 	// ET: a backlog needs a writability report that is still due (EPOLLOUT is reported again only after
 	// the kernel refused or shortened a write)
 	if cs.mode == "et" && cs.registered && reg && !st.Closed && len(st.Items) > 0 && !cs.edgeDue {
 		orc("c04-et-lost-edge", "mode=et: open conn with %d queued items but no writability report is due (no EAGAIN / short write since the last reported EPOLLOUT): the backlog waits for an edge that never comes", len(st.Items))
+		orc("c01-stranded", "mode=et: accepted bytes sit in %d queued items of an open conn and no writability report is due: without another call or input from the peer they never reach it", len(st.Items))
 	}
 	if len(st.Items) == 0 {
 		cs.fromOpen = false
